@@ -21,6 +21,7 @@
      CancelFnCall(f, b) / CancelFnRet(f, a)   the cancel function was consulted for f with result id b and
                                    answered a (1 True, 0 False, 2 raised)
      Observed(f, s, a, b)          the returned future was seen in state s with outcome (a, b)
+     Cfg(s = behaviour of the cancel function: none | true | false | raise)   (optional)
      ShutdownCall, End
 *)
 EXTENDS ObsKit
@@ -41,6 +42,9 @@ ObsInit == [open |-> 0,            \* index of the poll call in progress (0 = no
             resolving |-> {},      \* futures for which a resolving call (yield, cancel) has started
             resolved |-> {},       \* futures for which a resolving call has returned
             cancelling |-> {}, vetoed |-> {},
+            cfn |-> "",            \* how the cancel function answers (Cfg), "" = not told
+            cpoll |-> {},          \* futures that were surely in the polling stage when their pending cancel() was issued
+
             want |-> -1,           \* a poll is owed since this time (eligibility / notify), -1: none owed
             down |-> FALSE]
 
@@ -67,8 +71,12 @@ ObsNext(st, e) ==
                      !.src = IF e.a = 1
                                THEN [f \in DOMAIN @ \cup SeqToSet(st.shown) |-> IF Has(@, f) THEN @[f] ELSE <<1, e.b>>]
                                ELSE @]
+    [] e.ev = "Cfg" -> [st EXCEPT !.cfn = e.s]
     [] e.ev = "CancelCall" -> [st EXCEPT !.cancelling = @ \cup {e.f}, !.resolving = @ \cup {e.f},
-                                         !.vetoed = @ \ {e.f}]
+                                         !.vetoed = @ \ {e.f},
+                                         \* registered before the previous poll call returned, nobody resolving it
+                                         !.cpoll = IF e.f \in st.old /\ e.f \notin st.resolving /\ e.f \notin st.resolved
+                                                     THEN @ \cup {e.f} ELSE @ \ {e.f}]
     [] e.ev = "CancelRet" -> [st EXCEPT !.cancelling = @ \ {e.f},
                                         !.resolved = IF e.a = 1 THEN @ \cup {e.f} ELSE @]
     [] e.ev = "CancelFnRet" /\ e.a # 1 -> [st EXCEPT !.vetoed = @ \cup {e.f}]
@@ -102,6 +110,10 @@ Clauses(st, e) ==
                                   /\ e.f \notin st.resolved)>>,
      <<"C08_Veto",
         (e.ev = "CancelRet" /\ e.f \in st.vetoed) => e.a = 0>>,
+     <<"C08_VetoWhilePolling",    \* a cancel function that always refuses: no cancel() of a future that was in the polling
+                                 \* stage when the call was issued comes back True (unless a yield resolved it meanwhile,
+                                 \* in which case it is not cancelled either)
+        (e.ev = "CancelRet" /\ e.a = 1 /\ e.f \in st.cpoll) => st.cfn \notin {"false", "raise"}>>,
      <<"C08_VetoedNotCancelled",
         (e.ev = "Observed" /\ e.s \in CancelledStates) => e.f \notin st.vetoed>> >>
 =============================================================================
